@@ -597,9 +597,10 @@ Definition parses_back (m : bmsg) : Prop :=
 
 (** an embedded NUL in a String field: ParameterStatus("a\\0b", "c") does not come back *)
 Theorem encode_refuted_nul_thm :
-  exists m, typed_backend m = true /\ bytes_backend m = true /\ ~ parses_back m.
+  exists n v, no_nul n = false /\ bytes_backend (BParameterStatus n v) = true
+              /\ typed_backend (BParameterStatus n v) = true /\ ~ parses_back (BParameterStatus n v).
 Proof.
-  exists (BParameterStatus [97; 0; 98] [99]). split; [reflexivity|]. split; [reflexivity|].
+  exists [97; 0; 98], [99]. split; [reflexivity|]. split; [reflexivity|]. split; [reflexivity|].
   unfold parses_back. vm_compute. discriminate.
 Qed.
 
@@ -616,9 +617,10 @@ Qed.
 
 (** field type 0 in an Error/NoticeResponse is the terminator *)
 Theorem encode_refuted_field_type_zero_thm :
-  exists m, typed_backend m = true /\ bytes_backend m = true /\ ~ parses_back m.
+  exists s, no_nul s = true /\ bytes_ok s = true /\ typed_backend (BErrorResponse [(0, s)]) = true
+            /\ ~ parses_back (BErrorResponse [(0, s)]).
 Proof.
-  exists (BErrorResponse [(0, [122])]). split; [reflexivity|]. split; [reflexivity|].
+  exists [122]. split; [reflexivity|]. split; [reflexivity|]. split; [reflexivity|].
   unfold parses_back. vm_compute. discriminate.
 Qed.
 
